@@ -85,8 +85,18 @@ KINDS = {
     "ref-disc-union": (_ref("PetU"), None, [{"petType": "dog", "bark": True}, {"petType": "puppy", "bark": False}, {"petType": "cat", "lives": 9}]),
     "arr-ref-disc-union": ({"type": "array", "items": _ref("PetU")}, None,
                            [[{"petType": "puppy", "bark": False}], [{"petType": "cat", "lives": 9}, {"petType": "dog", "bark": True}], []]),
+    # reference to ONE named union WITHOUT discriminator whose variants are told apart by their required keys (the stricter one listed first);
+    # the array instances hold both variants in both orders: what an element decodes to must not depend on its neighbours
+    "ref-plain-union": (_ref("EntryU"), None, [{"entryId": 1}, {"entryId": 2, "bodyText": "b", "wordCount": 3}]),
+    "arr-ref-plain-union": ({"type": "array", "items": _ref("EntryU")}, None,
+                            [[{"entryId": 1}, {"entryId": 2, "bodyText": "b", "wordCount": 3}, {"entryId": 4}],
+                             [{"entryId": 2, "bodyText": "b", "wordCount": 3}, {"entryId": 1}, {"entryId": 5, "bodyText": "c", "wordCount": 0}], []]),
 }
 DISC_TARGETS = {
+    "EntryDetailed": {"type": "object", "required": ["entryId", "bodyText", "wordCount"],
+                      "properties": {"entryId": {"type": "integer"}, "bodyText": {"type": "string"}, "wordCount": {"type": "integer"}}},
+    "EntryBrief": {"type": "object", "required": ["entryId"], "properties": {"entryId": {"type": "integer"}}},
+    "EntryU": {"oneOf": [_ref("EntryDetailed"), _ref("EntryBrief")]},
     "DiscDog": {"type": "object", "required": ["petType", "bark"], "properties": {"petType": {"type": "string"}, "bark": {"type": "boolean"}}},
     "DiscCat": {"type": "object", "required": ["petType", "lives"], "properties": {"petType": {"type": "string"}, "lives": {"type": "integer"}}},
     "PetU": {"oneOf": [_ref("DiscDog"), _ref("DiscCat")],
